@@ -95,7 +95,8 @@ def _name_to_month(name: str) -> int:
 #  - [0-9] instead of \d, because re.ASCII flag cannot be set.
 
 # HH:MM  HH:M:SS HH:MM:SS.sss  HH:MM:SS,sss  (one or two digits for H, M, S)
-_RE_TIME = re.compile(r'(\d{1,2}:\d{1,2}(:\d{1,2})?([.,]\d+)?)', flags=re.ASCII)
+_RE_TIME = re.compile(
+    r'(?<!\d)(\d{1,2}:\d{1,2}(:\d{1,2})?([.,]\d+)?)(?!\d)', flags=re.ASCII)  # not a part of a longer number
 
 # YYYY-MM-DD  YYYY-month-DD
 _RE_YMD = re.compile(r'([0-9]{4})-([^\W\d_]{3,}|[0-9]{2})-([0-9]{2})')
